@@ -37,14 +37,16 @@ def cmd_import(src, n, seed_id, prop):
         shutil.copy(demo, os.path.join(wt, "tests", "seed_demo.rs"))
         env_target = f"CARGO_TARGET_DIR=/tmp/seed-target"
         # pristine: demo passes
-        rc0, out0 = sh(f"{env_target} cargo test --offline --test seed_demo 2>&1", wt)
+        flags = os.environ.get("SEED_DEMO_FLAGS", "")
+        meta["demo_flags"] = flags
+        rc0, out0 = sh(f"{env_target} cargo test --offline {flags} --test seed_demo 2>&1", wt)
         meta["verified"]["demo_passes_on_pristine"] = rc0 == 0
         # patched
         rc, out = sh(f"git apply --check {patch} && git apply {patch}", wt)
         meta["verified"]["patch_applies"] = rc == 0
         rcb, outb = sh(f"{env_target} cargo build --offline 2>&1", wt)
         meta["verified"]["compiles"] = rcb == 0
-        rc1, out1 = sh(f"{env_target} cargo test --offline --test seed_demo 2>&1", wt)
+        rc1, out1 = sh(f"{env_target} cargo test --offline {flags} --test seed_demo 2>&1", wt)
         meta["verified"]["demo_fails_with_patch"] = rc1 != 0
         os.remove(os.path.join(wt, "tests", "seed_demo.rs"))
         lines, failed = [], []
